@@ -46,7 +46,18 @@ def design_c16(work, tier):
     hs = vf.pmap(hist, range(nsh))
     for h in hs:
         vf.tlc_must_pass(h, "History.tla OneStepBound")
-    return dict(picker_states=r.distinct, picker_transitions=r.generated, necessity_counterexample=True,
+    # Apalache: the same bound symbolically, for every stored value and EVERY integer bonus
+    import shutil
+    d = os.path.join(work, "apa-hist")
+    os.makedirs(d, exist_ok=True)
+    for f in ("History.tla", "HistoryApa.tla"):
+        shutil.copy(os.path.join(vf.SPEC, f), d)
+    pa = vf.run(["timeout", "600", "apalache-mc", "check", "--init=Init", "--inv=Inv", "--length=0", "--out-dir=" + os.path.join(d, "out"), "HistoryApa.tla"],
+                cwd=d, timeout=700, check=False)
+    if "The outcome is: NoError" not in pa.stdout:
+        raise vf.Infra("Apalache did not establish the history band bound:\n" + pa.stdout[-2000:])
+    return dict(apalache="HistoryApa.tla: InBand(Step(h, bonus)) for all h in the band and all integer bonuses: NoError",
+                picker_states=r.distinct, picker_transitions=r.generated, necessity_counterexample=True,
                 history_pairs=sum(int(s.split()[1]) for h in hs for s in h.printed if s.startswith("PAIRS ")),
                 history_exhaustive=not quick), r
 
